@@ -1,7 +1,8 @@
 (* C06: operator== of the directed labelled model is transitive on graphs satisfying the invariant whenever the label type's == is,
    so together with Equality.graph_eqb_refl / graph_eqb_sym it is an equivalence relation - "value equality" in the full sense. *)
 From BG Require Import Base DirectedModel DirectedProofs DirectedIter DirectedUsers DirectedSpec DirectedRefine DirectedObs Equality
-  UndirectedModel UndirectedProofs UndirectedIter UndirectedSpec UndirectedRefine UndirectedObs EqualityMore.
+  UndirectedModel UndirectedProofs UndirectedIter UndirectedSpec UndirectedRefine UndirectedObs
+  MultiModel WeightedModel MultiSpec Totals MultiRefine WeightedRefine UTotals UMultiRefine UWeightedRefine EqualityMore.
 
 Section EqTrans.
 Context {L : Type}.
@@ -67,4 +68,28 @@ Proof.
       destruct (lfind (i, j) (labels h)) as [v'|] eqn:F2; [|congruence].
       apply (T v v' v''); [apply (LA1 (i, j) v v' F1 F2)|apply (LA2 (i, j) v' v'' F2 F3)].
     + rewrite ILg in F1. discriminate.
+Qed.
+
+(* both multigraphs and both weighted graphs (multiplicity / weight compared with Z.eqb): transitive, and the running totals of the outer
+   graphs agree although operator== never reads them *)
+Local Open Scope Z_scope.
+Theorem m_graph_eqb_trans : forall (m1 m2 m3 : mgraph),
+  (TInv m1 /\ TInv m2 /\ TInv m3) \/ (UTInv m1 /\ UTInv m2 /\ UTInv m3) ->
+  graph_eqb Z.eqb (mg m1) (mg m2) = Val true -> graph_eqb Z.eqb (mg m2) (mg m3) = Val true ->
+  graph_eqb Z.eqb (mg m1) (mg m3) = Val true /\ mtot m1 = mtot m3.
+Proof.
+  intros m1 m2 m3 I E1 E2.
+  assert (I12 : (TInv m1 /\ TInv m2) \/ (UTInv m1 /\ UTInv m2)) by tauto.
+  assert (I23 : (TInv m2 /\ TInv m3) \/ (UTInv m2 /\ UTInv m3)) by tauto.
+  assert (I13 : (TInv m1 /\ TInv m3) \/ (UTInv m1 /\ UTInv m3)) by tauto.
+  destruct (EqualityMore.C06_multi_weighted_states m1 m2 I12) as [b1 [Q1 [[D1 _] _]]].
+  destruct (EqualityMore.C06_multi_weighted_states m2 m3 I23) as [b2 [Q2 [[D2 _] _]]].
+  destruct (EqualityMore.C06_multi_weighted_states m1 m3 I13) as [b3 [Q3 [[_ U3] TT]]].
+  rewrite E1 in Q1. rewrite E2 in Q2. injection Q1 as <-. injection Q2 as <-.
+  destruct (D1 eq_refl) as [S1 [SE1 LA1]]. destruct (D2 eq_refl) as [S2 [SE2 LA2]].
+  assert (B : b3 = true).
+  { apply U3. split; [congruence|]. split.
+    - intros i j. rewrite (SE1 i j). apply SE2.
+    - intros e. rewrite (LA1 e). apply LA2. }
+  subst b3. split; [exact Q3|apply TT; reflexivity].
 Qed.
